@@ -201,3 +201,72 @@ def render_out(events):
         else: raise ValueError(ev["t"])
         out.append(s + ("\n" if ev["nl"] else ""))
     return "".join(out)
+
+
+# ------------------------------------------------------------------ structured types (for NanoType.tla)
+def parse_type(s, p):
+    """type string -> record [k, n, a] as used by spec/NanoType.tla"""
+    s = s.strip()
+    T = lambda k, n="", a=(): {"k": k, "n": n, "a": list(a)}
+    if s == "int": return T("int")
+    if s == "bool": return T("bool")
+    if s == "string": return T("str")
+    if s == "void": return T("void")
+    if s.startswith("array<") and s.endswith(">"):
+        return T("arr", "", [parse_type(s[6:-1], p)])
+    if s.startswith("fn("):
+        depth, i = 0, 2
+        for i in range(2, len(s)):
+            if s[i] == "(": depth += 1
+            elif s[i] == ")":
+                depth -= 1
+                if depth == 0: break
+        params = _split_top(s[3:i])
+        ret = s[i + 1:].strip()
+        assert ret.startswith("->")
+        return T("fn", "", [parse_type(x, p) for x in params] + [parse_type(ret[2:], p)])
+    if s.startswith("(") and s.endswith(")"):
+        return T("tuple", "", [parse_type(x, p) for x in _split_top(s[1:-1])])
+    if any(st["n"] == s for st in p["structs"]): return T("struct", s)
+    if any(u["n"] == s for u in p["unions"]): return T("union", s)
+    if any(e["n"] == s for e in p["enums"]): return T("enum", s)
+    return T("struct", s)          # unknown name: no such struct (rule `struct`)
+
+
+def _split_top(s):
+    out, depth, cur = [], 0, ""
+    for ch in s:
+        if ch in "(<": depth += 1
+        if ch in ")>": depth -= 1
+        if ch == "," and depth == 0:
+            out.append(cur); cur = ""
+        else:
+            cur += ch
+    if cur.strip():
+        out.append(cur)
+    return out
+
+
+def annotate_types(p):
+    """add the structured type fields NanoType.tla reads (tyS, ptyS, retS, ftyS); returns p"""
+    for st in p["structs"]:
+        st["ftyS"] = [parse_type(t, p) for t in st["ftys"]]
+    for u in p["unions"]:
+        for v in u["variants"]:
+            v["ftyS"] = [parse_type(t, p) for t in v["ftys"]]
+    for g in p["globals"]:
+        g["tyS"] = parse_type(g["t"], p)
+
+    def walk(stmts):
+        for s in stmts:
+            s["tyS"] = parse_type(s["t"], p) if s["k"] == "let" else {"k": "void", "n": "", "a": []}
+            walk(s["b"]); walk(s["c"])
+            for arm in s["arms"]:
+                walk(arm["b"])
+    for f in p["funcs"]:
+        f["ptyS"] = [parse_type(t, p) for t in f["ptys"]]
+        f["retS"] = parse_type(f["ret"], p)
+        walk(f["body"])
+    for sh in p["shadows"]:
+        walk(sh["b"])
+    return p
